@@ -196,8 +196,8 @@ Fixpoint insert_sorted (s : state) (x : value) (l : list value) : option (list v
   match l with
   | [] => Some [x]
   | y :: t => match vcmp depth s x y with
-              | Some Lt => Some (x :: y :: t)
-              | Some _ => match insert_sorted s x t with Some r => Some (y :: r) | None => None end
+              | Some Gt => match insert_sorted s x t with Some r => Some (y :: r) | None => None end
+              | Some _ => Some (x :: y :: t)        (* x came first in the input: it stays before equal elements *)
               | None => None end
   end.
 Fixpoint sort_values (s : state) (l : list value) : option (list value) :=
@@ -205,7 +205,31 @@ Fixpoint sort_values (s : state) (l : list value) : option (list value) :=
   | [] => Some []
   | x :: t => match sort_values s t with Some r => insert_sorted s x r | None => None end
   end.
-(* insertion from the right keeps equal elements in their original order: stable *)
+(* elements are inserted from the right end of the input, each before the equal ones already placed: stable *)
+
+(* stable sort of (key, element) pairs by key *)
+Fixpoint insert_pair (s : state) (p : value * value) (l : list (value * value)) : option (list (value * value)) :=
+  match l with
+  | [] => Some [p]
+  | q :: t => match vcmp depth s (fst p) (fst q) with
+              | Some Gt => match insert_pair s p t with Some r => Some (q :: r) | None => None end
+              | Some _ => Some (p :: q :: t)        (* p came first in the input: it stays before equal keys *)
+              | None => None end
+  end.
+Fixpoint sort_pairs (s : state) (l : list (value * value)) : option (list (value * value)) :=
+  match l with
+  | [] => Some []
+  | p :: t => match sort_pairs s t with Some r => insert_pair s p r | None => None end
+  end.
+(* reverse=True keeps the original order of elements with equal keys *)
+Definition sort_pairs_dir (s : state) (reverse : bool) (l : list (value * value)) : option (list (value * value)) :=
+  if reverse then option_map (@rev _) (sort_pairs s (rev l)) else sort_pairs s l.
+
+Fixpoint assoc_str (x : string) (l : list (string * value)) : option value :=
+  match l with
+  | [] => None
+  | (y, v) :: t => if String.eqb x y then Some v else assoc_str x t
+  end.
 
 Fixpoint extremum (s : state) (want : comparison) (best : value) (l : list value) : option value :=
   match l with
@@ -683,7 +707,27 @@ with call (n : nat) (f : value) (pos : list value) (named : list (string * value
   | O => fun _ => OutOfFuel
   | S n =>
     match f with
-    | VBuiltin b => call_builtin b pos named
+    | VBuiltin b =>
+        if String.eqb b "sorted" && match named with [] => false | _ => true end then
+          (* sorted(iterable, key=f, reverse=b): the key function is called once per element, in order *)
+          if forallb (fun kv => String.eqb (fst kv) "key" || String.eqb (fst kv) "reverse") named then
+            match pos with
+            | [v] =>
+                xs <- iter_elems v ;;
+                ks <- match assoc_str "key" named with
+                      | Some VNone | None => ret xs
+                      | Some kf => mapM (fun x => call n kf [x] []) xs
+                      end ;;
+                st <- get_state ;;
+                let reverse := match assoc_str "reverse" named with Some r => truth st r | None => false end in
+                match sort_pairs_dir st reverse (combine ks xs) with
+                | Some r => alloc_list (map snd r)
+                | None => fail TypeErr
+                end
+            | _ => fail Arity
+            end
+          else fail Arity
+        else call_builtin b pos named
     | VClo c =>
         cl <- get_clo c ;;
         match bind_params (c_params cl) (c_defaults cl) pos named false with
